@@ -183,9 +183,8 @@ func hostileCases() []*hostileCase {
 		{Name: "auth-body-zero-length-chunk", script: rawAuth(98, func(sc *rawSC) []byte { return nil }, true)},
 		{Name: "auth-len-0", script: rawAuth(0, func(sc *rawSC) []byte { return authMsg(pubRaw(privPeer), goodSig(sc)) }, false)},
 		{Name: "auth-len-4g", RlimitAS: 3 << 30, script: rawAuth(0xFFFFFFFF, func(sc *rawSC) []byte { return authMsg(pubRaw(privPeer), goodSig(sc)) }, false)},
-		{Name: "auth-len-2g", RlimitAS: 3 << 29, script: rawAuth(0x80000000, func(sc *rawSC) []byte { return authMsg(pubRaw(privPeer), goodSig(sc)) }, false)},
 		{Name: "auth-len-4g-no-rlimit", script: rawAuth(0xFFFFFFFF, func(sc *rawSC) []byte { return authMsg(pubRaw(privPeer), goodSig(sc)) }, false)},
-		{Name: "control-honest-only-rlimit", RlimitAS: 3 << 29},
+		{Name: "control-honest-only-rlimit", RlimitAS: 3 << 30},
 		{Name: "auth-unknown-key-type", script: rawAuth(98, func(sc *rawSC) []byte { b := authMsg(pubRaw(privPeer), goodSig(sc)); b[0] = 7; return b }, false)},
 		{Name: "auth-secp-key-type-ed-sig", script: rawAuth(130, func(sc *rawSC) []byte {
 			var b bytes.Buffer
@@ -397,8 +396,7 @@ func runHostile(o *rec, self, scratch string, id int, hc *hostileCase) {
 					if err := hc.script(a.c, hc); err != nil {
 						scriptErr = err.Error()
 					}
-					time.Sleep(50 * time.Millisecond)
-					a.c.Close()
+					drainUntilClosed(a.c)
 				}
 			case <-time.After(30 * time.Second):
 				scriptErr = "node never dialled"
@@ -412,10 +410,7 @@ func runHostile(o *rec, self, scratch string, id int, hc *hostileCase) {
 				if err := hc.script(c, hc); err != nil {
 					scriptErr = err.Error()
 				}
-				// let the node consume what was sent, then hang up so that the (sequential) listener routine moves on
-				c.SetReadDeadline(time.Now().Add(300 * time.Millisecond))
-				io.Copy(ioutil.Discard, c)
-				c.Close()
+				drainUntilClosed(c)
 			}
 		}
 	}
@@ -489,6 +484,18 @@ func runHostile(o *rec, self, scratch string, id int, hc *hostileCase) {
 	if hc.Name == "auth-nil-sig" || hc.Name == "control-honest-only" {
 		o.Sample(map[string]interface{}{"monitor": "hostile", "case": hc, "node_alive": alive, "canary_admitted": canaryOK})
 	}
+}
+
+// drainUntilClosed: we are done sending (half-close); wait until the node has
+// dealt with the input and hung up (or died), so that the verdict does not
+// depend on timing. The deadline is only a watchdog.
+func drainUntilClosed(c net.Conn) {
+	if t, ok := c.(*net.TCPConn); ok {
+		t.CloseWrite()
+	}
+	c.SetReadDeadline(time.Now().Add(10 * time.Second))
+	io.Copy(ioutil.Discard, c)
+	c.Close()
 }
 
 func firstLine(stderr string) string {
